@@ -74,6 +74,7 @@ def c12_tree():
     <enum name="PacketFamily" type="byte"><value name="Connection">1</value><value name="Account">2</value><value name="Init">255</value></enum>
     <enum name="PacketAction" type="byte"><value name="Player">1</value><value name="Reply">2</value><value name="Init">255</value></enum>
     <enum name="InitReply" type="byte"><value name="Ok">2</value></enum>
+    <enum name="AccountReply" type="short"><value name="Exists">1</value><value name="NotApproved">2</value><value name="Created">3</value></enum>
 </protocol>
 """
     t["net/server/protocol.xml"] = _HDR + """<protocol>
@@ -88,9 +89,16 @@ def c12_tree():
         <field name="seq2" type="char"/>
     </packet>
     <packet family="Account" action="Reply">
-        <field name="reply_code" type="short"/>
-        <field name="sequence_start" type="char"/>
-        <field name="ok" type="string"/>
+        <field name="reply_code" type="AccountReply"/>
+        <switch field="reply_code">
+            <case value="Exists"><field type="string">NO</field></case>
+            <case value="NotApproved"><field type="string">NO</field></case>
+            <case value="Created"><field type="string">GO</field></case>
+            <case default="true">
+                <field name="sequence_start" type="char"/>
+                <field type="string">OK</field>
+            </case>
+        </switch>
     </packet>
 </protocol>
 """
@@ -126,7 +134,10 @@ class _Ctx:
                 pkt = self.srv.ConnectionPlayerServerPacket(seq1=comps[0], seq2=comps[1])
                 want = encode_number(comps[0], 2) + encode_number(comps[1], 1)
             else:
-                pkt = self.srv.AccountReplyServerPacket(reply_code=1000, sequence_start=comps[0], ok="OK")
+                # as documented: every declared reply code has its own case, the start travels in the default case
+                P = self.srv.AccountReplyServerPacket
+                pkt = P(reply_code=self.net.AccountReply(1000),
+                        reply_code_data=P.ReplyCodeDataDefault(sequence_start=comps[0]))
                 want = encode_number(1000, 2) + encode_number(comps[0], 1) + b"OK"
             w = self.W()
             pkt.write(w)
@@ -136,7 +147,7 @@ class _Ctx:
                                             f"layout gives {want.hex()}")
                 return None
             back = type(pkt).deserialize(self.R(want))
-            out = ((back.seq1, back.seq2) if gen != "account" else (back.sequence_start,))
+            out = ((back.seq1, back.seq2) if gen != "account" else (back.reply_code_data.sequence_start,))
         except Exception as e:  # noqa
             self.fail("wire-trip", gen, f"{gen} components {comps} through the generated packet: {type(e).__name__}: {e}")
             return None
